@@ -32,39 +32,43 @@ Definition j2f_ok (names : list pstr) (e : meta) (k : pstr) (r : kres) : Prop :=
   | KNull => resolve_pure names (m_ltr e) k = RUnknown /\ raise_of e = false
   end.
 
-Record valid (G : gov) (s : sigma) (n : cid) (e : meta) (d : cdecl) : Prop := {
-  v_parsers : forall ps, cs_parsers (st_cls s n) = Some ps ->
+Record valid (G : gov) (s : sigma) (n : cid) (x : cstate) (e : meta) (d : cdecl) : Prop := {
+  v_parsers : forall ps, cs_parsers x = Some ps ->
       ps = parsers_of (gm G s) d /\
       forall dm, In dm (children d) -> G (d_id dm) <> None /\ cs_parsers (st_cls s (d_id dm)) <> None;
-  v_j2f : forall k r, In (k, r) (cs_j2f (st_cls s n)) -> j2f_ok (d_names d) e k r;
-  v_loadfn : forall f, cs_loadfn (st_cls s n) = Some f -> f = mk_lfn n e /\ cs_parsers (st_cls s n) <> None;
-  v_from_dict : forall f, cs_from_dict (st_cls s n) = Some f -> cs_loadfn (st_cls s n) = Some f;
-  v_alias : forall x k, In (x, k) (cs_alias (st_cls s n)) -> apply_tr (tr_dump (m_dtr e)) x = Some k;
-  v_dumpfn : forall f, cs_dumpfn (st_cls s n) = Some f ->
+  v_j2f : forall k r, In (k, r) (cs_j2f x) -> j2f_ok (d_names d) e k r;
+  v_loadfn : forall f, cs_loadfn x = Some f -> f = mk_lfn n e /\ cs_parsers x <> None;
+  v_from_dict : forall f, cs_from_dict x = Some f -> cs_loadfn x = Some f;
+  v_alias : forall y k, In (y, k) (cs_alias x) -> apply_tr (tr_dump (m_dtr e)) y = Some k;
+  v_dumpfn : forall f, cs_dumpfn x = Some f ->
       exists ks, keys_of (tr_dump (m_dtr e)) (d_names d) = Some ks /\ f = mk_dfn d e (cfg_of (own_meta s n)) ks;
-  v_to_dict : forall f, cs_to_dict (st_cls s n) = Some f -> cs_dumpfn (st_cls s n) = Some f;
-  v_nested : forall m g, In (m, g) (cs_nested_dfns (st_cls s n)) ->
+  v_to_dict : forall f, cs_to_dict x = Some f -> cs_dumpfn x = Some f;
+  v_nested : forall m g, In (m, g) (cs_nested_dfns x) ->
       exists dm em ks, decl_of s m = Some dm /\ d_id dm = m /\ G m = Some em /\
                        keys_of (tr_dump (m_dtr em)) (d_names dm) = Some ks /\
                        g = mk_dfn dm em (cfg_of (own_meta s n)) ks
 }.
 
-Record InvC (G : gov) (s : sigma) (n : cid) : Prop := {
-  i_ltr : cs_ltr (st_cls s n) = m_ltr (gm G s n);
-  i_dtr : cs_dtr (st_cls s n) = m_dtr (gm G s n);
-  i_hooks : forall t h, In (t, h) (cs_hooks (st_cls s n)) -> h = hook_pure t;
-  i_defaults : forall ds, cs_defaults (st_cls s n) = Some ds ->
+Record InvX (G : gov) (s : sigma) (n : cid) (x : cstate) : Prop := {
+  i_ltr : cs_ltr x = m_ltr (gm G s n);
+  i_dtr : cs_dtr x = m_dtr (gm G s n);
+  i_hooks : forall t h, In (t, h) (cs_hooks x) -> h = hook_pure t;
+  i_defaults : forall ds, cs_defaults x = Some ds ->
       exists d, decl_of s n = Some d /\ ds = d_defaults d;
-  i_none : G n = None -> caches_empty (st_cls s n);
-  i_some : forall e, G n = Some e -> exists d, decl_of s n = Some d /\ valid G s n e d
+  i_none : G n = None -> caches_empty x;
+  i_some : forall e, G n = Some e -> exists d, decl_of s n = Some d /\ valid G s n x e d
 }.
+Definition InvC (G : gov) (s : sigma) (n : cid) : Prop := InvX G s n (st_cls s n).
 
 (* the memo invariant *)
 Definition InvG (G : gov) (s : sigma) : Prop := forall n, InvC G s n.
 
 Definition trees_ok (s : sigma) : Prop :=
   forall c d, decl_of s c = Some d ->
-    d_id d = c /\ forall dm, In dm (children d) -> decl_of s (d_id dm) = Some dm.
+    d_id d = c /\ (forall dm, In dm (children d) -> decl_of s (d_id dm) = Some dm) /\ ~ In c (proper_ids d).
+
+Lemma trees_ok_child s c d dm : trees_ok s -> decl_of s c = Some d -> In dm (children d) -> decl_of s (d_id dm) = Some dm.
+Proof. intros T H. apply (T c d H). Qed.
 
 (* state changes that keep declarations, Meta objects, and never change a parser table once present *)
 Definition pres (s s' : sigma) : Prop :=
@@ -99,7 +103,7 @@ Proof. intros [H _]. now apply same_dp_decl. Qed.
 
 Lemma trees_ok_pres s s' : trees_ok s -> pres s s' -> trees_ok s'.
 Proof.
-  intros T P c d H. rewrite (pres_decl _ _ _ P) in H. destruct (T c d H) as [E K]. split; auto.
+  intros T P c d H. rewrite (pres_decl _ _ _ P) in H. destruct (T c d H) as (E & K & N). split; [|split]; auto.
   intros dm Hd. rewrite (pres_decl _ _ _ P). auto.
 Qed.
 
@@ -108,7 +112,7 @@ Lemma trees_ok_proper s : trees_ok s -> forall d, decl_of s (d_id d) = Some d ->
 Proof.
   intro T. induction d as [i fs IH] using cdecl_ind'. intros Hd dk Hk.
   apply proper_inv in Hk. destruct Hk as (dm & Hm & Hk).
-  assert (Hdm : decl_of s (d_id dm) = Some dm) by (apply (T _ _ Hd); exact Hm).
+  assert (Hdm : decl_of s (d_id dm) = Some dm) by (eapply trees_ok_child; eauto).
   destruct Hk as [->|Hk]; auto.
   apply (IH dm Hm Hdm dk Hk).
 Qed.
@@ -128,30 +132,39 @@ Proof.
   - apply IH. intros dm Hd. apply H. destruct ty; cbn; auto.
 Qed.
 
-(* transfer of the per-class invariant to a state / ghost that did not touch the class *)
-Lemma InvC_transfer G G' s s' c :
-  InvC G s c -> st_cls s' c = st_cls s c -> pres s s' -> gext G G' -> G' c = G c -> InvC G' s' c.
+(* transfer of validity to a state / ghost that kept what the clauses refer to *)
+Lemma valid_transfer G G' s s' n x e d :
+  valid G s n x e d -> pres s s' -> gext G G' -> valid G' s' n x e d.
 Proof.
-  intros I E P X Ec.
+  intros V P X. destruct V as [V1 V2 V3 V4 V5 V6 V7 V8]. split; auto.
+  - intros ps Hps. destruct (V1 ps Hps) as [-> K]. split.
+    + apply parsers_of_ext. intros dm Hd'. destruct (K dm Hd') as [K1 _].
+      rewrite (gm_gext G G' s' (d_id dm) X K1). symmetry. apply gm_pres; assumption.
+    + intros dm Hd'. destruct (K dm Hd') as [K1 K2]. split.
+      * destruct (G (d_id dm)) eqn:Eg; [|congruence]. rewrite (gext_some _ _ _ _ X Eg). congruence.
+      * rewrite (proj2 P _ K2). exact K2.
+  - intros f Hf. rewrite (pres_own _ _ _ P). auto.
+  - intros m g Hin. destruct (V8 m g Hin) as (dm & em & ks & A1 & A2 & A3 & A4 & A5).
+    exists dm, em, ks. rewrite (pres_decl _ _ _ P), (pres_own _ _ _ P). repeat split; auto.
+    eapply gext_some; eauto.
+Qed.
+
+Lemma InvX_transfer G G' s s' c x :
+  InvX G s c x -> pres s s' -> gext G G' -> G' c = G c -> InvX G' s' c x.
+Proof.
+  intros I P X Ec.
   assert (Egm : gm G' s' c = gm G s c).
   { unfold gm. rewrite Ec. destruct (G c); auto. now apply pres_om. }
-  destruct I as [I1 I2 I3 I4 I5 I6]. split; rewrite ?E; rewrite ?Egm; auto.
+  destruct I as [I1 I2 I3 I4 I5 I6]. split; rewrite ?Egm; auto.
   - intros ds H. destruct (I4 ds H) as (d & Hd & ->). exists d. split; auto. now rewrite (pres_decl _ _ _ P).
   - rewrite Ec. exact I5.
   - intros e He. rewrite Ec in He. destruct (I6 e He) as (d & Hd & V). exists d.
-    split; [now rewrite (pres_decl _ _ _ P)|].
-    destruct V as [V1 V2 V3 V4 V5 V6 V7 V8]. split; rewrite ?E; auto.
-    + intros ps Hps. destruct (V1 ps Hps) as [-> K]. split.
-      * apply parsers_of_ext. intros dm Hd'. destruct (K dm Hd') as [K1 _].
-        rewrite (gm_gext G G' s' (d_id dm) X K1). symmetry. apply gm_pres; assumption.
-      * intros dm Hd'. destruct (K dm Hd') as [K1 K2]. split.
-        -- destruct (G (d_id dm)) eqn:Eg; [|congruence]. rewrite (gext_some _ _ _ _ X Eg). congruence.
-        -- rewrite (proj2 P _ K2). exact K2.
-    + intros f Hf. rewrite (pres_own _ _ _ P). auto.
-    + intros m g Hin. destruct (V8 m g Hin) as (dm & em & ks & A1 & A2 & A3 & A4 & A5).
-      exists dm, em, ks. rewrite (pres_decl _ _ _ P), (pres_own _ _ _ P). repeat split; auto.
-      eapply gext_some; eauto.
+    split; [now rewrite (pres_decl _ _ _ P)|]. eapply valid_transfer; eauto.
 Qed.
+
+Lemma InvC_transfer G G' s s' c :
+  InvC G s c -> st_cls s' c = st_cls s c -> pres s s' -> gext G G' -> G' c = G c -> InvC G' s' c.
+Proof. intros I E P X Ec. unfold InvC. rewrite E. eapply InvX_transfer; eauto. Qed.
 
 (* ---------------------------------------------------------------- key resolution *)
 (* only key-cache entries were added *)
@@ -194,24 +207,15 @@ Proof.
   pose proof (j2f_only_pres _ _ (j2f_only_add s n k r)) as P.
   destruct (Nat.eq_dec c n) as [->|Hne].
   2:{ eapply InvC_transfer; eauto using gext_refl. now rewrite updc_other. }
-  set (s' := updc s n _) in *.
-  assert (Es : st_cls s' n = w_j2f ((k, r) :: cs_j2f (st_cls s n)) (st_cls s n)) by (unfold s'; rewrite updc_same; reflexivity).
-  assert (Egm : gm G s' n = gm G s n) by (apply gm_pres; exact P).
-  destruct (I n) as [I1 I2 I3 I4 I5 I6]. split; rewrite ?Es; cbn; rewrite ?Egm; auto.
-  - intros ds H. destruct (I4 ds H) as (d' & Hd' & ->). exists d'. split; auto. now rewrite (pres_decl _ _ _ P).
+  unfold InvC. rewrite updc_same.
+  pose proof (InvX_transfer G G s _ n _ (I n) P (gext_refl G) eq_refl) as J.
+  destruct J as [I1 I2 I3 I4 I5 I6]. split; cbn; auto.
   - congruence.
-  - intros e' He'. assert (e' = e) by congruence. subst e'.
-    destruct (I6 e Hg) as (d' & Hd' & V). assert (d' = d) by congruence. subst d'.
-    exists d. split; [now rewrite (pres_decl _ _ _ P)|].
-    destruct V as [V1 V2 V3 V4 V5 V6 V7 V8]. split; rewrite ?Es; cbn; auto.
-    + intros ps Hps. destruct (V1 ps Hps) as [-> K]. split.
-      * apply parsers_of_ext. intros dm Hd''. symmetry. apply gm_pres; assumption.
-      * intros dm Hd''. destruct (K dm Hd'') as [K1 K2]. split; auto.
-        destruct (Nat.eqb (d_id dm) n); cbn; exact K2.
-    + intros k0 r0 [H|H]; [inversion H; subst; exact Hok | auto].
-    + intros f Hf. rewrite (pres_own _ _ _ P). auto.
-    + intros m g Hin. destruct (V8 m g Hin) as (dm & em & ks & A1 & A2 & A3 & A4 & A5).
-      exists dm, em, ks. rewrite (pres_decl _ _ _ P), (pres_own _ _ _ P). repeat split; auto.
+  - intros e' He'. destruct (I6 e' He') as (d' & Hd' & V). exists d'. split; auto.
+    assert (e' = e) by congruence. subst e'.
+    assert (d' = d) by (rewrite (pres_decl _ _ _ P) in Hd'; congruence). subst d'.
+    destruct V as [V1 V2 V3 V4 V5 V6 V7 V8]. split; cbn; auto.
+    intros k0 r0 [H|H]; [inversion H; subst; exact Hok | auto].
 Qed.
 
 Definition resolve_result (n : cid) (names : list pstr) (e : meta) (k : pstr) : res kres :=
@@ -229,9 +233,9 @@ Proof.
   intros I Hg Hd. unfold resolve, resolve_result. cbn [l_cls l_tr l_raise mk_lfn].
   destruct (assoc_s k (cs_j2f (st_cls s n))) as [r0|] eqn:Ea.
   - intro H; inversion H; subst. split; [|split; [assumption | apply j2f_only_refl]].
-    apply assoc_s_in in Ea. destruct (i_some _ _ _ (I n) e Hg) as (d' & Hd' & V).
+    apply assoc_s_in in Ea. destruct (i_some _ _ _ _ (I n) e Hg) as (d' & Hd' & V).
     assert (d' = d) by congruence. subst d'.
-    pose proof (v_j2f _ _ _ _ _ V k r0 Ea) as Hok. destruct r0 as [x|]; cbn in Hok.
+    pose proof (v_j2f _ _ _ _ _ _ V k r0 Ea) as Hok. destruct r0 as [x|]; cbn in Hok.
     + now rewrite Hok.
     + destruct Hok as [-> ->]. reflexivity.
   - destruct (resolve_pure (d_names d) (m_ltr e) k) as [x| |] eqn:Er.
@@ -327,9 +331,9 @@ Proof.
   rewrite pure_load_dict. cbn [exec_load]. cbn [l_cls mk_lfn].
   destruct (cs_parsers (st_cls s (d_id d))) as [ps|] eqn:Eps; [|congruence].
   unfold decl_of in Hd. rewrite Hd.
-  destruct (i_some _ _ _ (I (d_id d)) e Hg) as (d' & Hd' & V). unfold decl_of in Hd'.
+  destruct (i_some _ _ _ _ (I (d_id d)) e Hg) as (d' & Hd' & V). unfold decl_of in Hd'.
   assert (d' = d) by congruence. subst d'.
-  destruct (v_parsers _ _ _ _ _ V ps Eps) as [Eq Hch]. subst ps.
+  destruct (v_parsers _ _ _ _ _ _ V ps Eps) as [Eq Hch]. subst ps.
   (* the loop *)
   assert (L : forall kv0, Forall (fun p => forall G s d e s' r,
                 InvG G s -> trees_ok s -> decl_of s (d_id d) = Some d -> G (d_id d) = Some e ->
@@ -364,7 +368,7 @@ Proof.
           destruct (exec_load s1' (mk_lfn (d_id dm) em) v) as [s1'' rv] eqn:Ex.
           assert (T1 : trees_ok s1') by (eapply trees_ok_pres; eauto using j2f_only_pres).
           assert (Hdm : decl_of s1' (d_id dm) = Some dm).
-          { rewrite (j2f_only_decl _ _ _ J01'). apply (T _ _ Hd). exact Hin. }
+          { rewrite (j2f_only_decl _ _ _ J01'). eapply trees_ok_child; eauto. }
           assert (Pdm' : cs_parsers (st_cls s1' (d_id dm)) <> None).
           { rewrite (j2f_only_parsers _ _ _ J01'). exact Pdm. }
           destruct (Hv G s1' dm em s1'' rv I1' T1 Hdm Egm Pdm' Ex) as (-> & I2 & J2).
